@@ -77,8 +77,8 @@ def run(chk):
     chk.trusted += ['coq-interval and Coquelicot (auto_derive)', 'decimal literals of the tables are used as written']
     chk.assumptions += ['table rows proved in this run are listed in coverage.instances_proved (quick: seeded sample; thorough: all 2 x 1000)',
                         'variable names are empty strings for the numpy-built families (dtype=str of width 0): the property does not forbid that',
-                        'location statements: sign of the derivative on both sides of the tabulated extremiser (1e-4 of the range) + separation beyond 0.5%; '
-                        'their combination into "the extremiser lies within 1e-4" is by the mean value theorem and is not restated in Coq']
+                        'location statements: every global extremiser lies within 1e-4 of the range of the tabulated one (c18_min_located / c18_max_located: derivative sign near the tabulated point + '
+                        'separation beyond 0.5%, combined by Problems/Locate.v, mean value theorem); the derivative bound is turned into a Lipschitz statement by lipschitz_from_derivative']
     found = 0
     # (a) metadata of every constructed instance: kernel check + direct check
     insts = all_instances(thorough, rng)
